@@ -10,7 +10,9 @@
 //                            pointers of the entries (an entry whose frame has been unwound is dropped),
 //                            i.e. how deep the library nested inline execution - guarded or not;
 //                    guard = largest InlineDepthGuard depth reported by the library hook (InlGuard);
-//                    sb    = deepest stack use in bytes at a body entry;  ran = bodies executed.
+//                    sb    = deepest stack use in bytes at a body entry;  ran = bodies executed;
+//                    need  = bodies that must have run (n; fault scenarios: those entered before the fault),
+//                    inj / left = fault scenarios: the fault was placed as intended / items queued at that time.
 // C++ only drives and records; TLC checks the records against the bound of the specification.
 #include <dispenso/future.h>
 #include <dispenso/graph.h>
@@ -30,6 +32,7 @@
 #include <functional>
 #include <map>
 #include <memory>
+#include <stdexcept>
 #include <string>
 #include <thread>
 #include <vector>
@@ -87,6 +90,7 @@ extern "C" void dispenso_verif_note(const char* site, const void*, long long a, 
 
 struct Result {
   long ran = 0, nest = 0, guard = 0, sb = 0;
+  long need = 0, inj = 0, left = 0; // bodies that must have run (n unless the scenario says otherwise); fault scenarios: placed / backlog at the fault
   int done = 0;
 };
 
@@ -205,6 +209,174 @@ static void pipelineSerial(long n, int threads) {
       });
   if (sum != n * (n + 1) / 2)
     _exit(9);
+}
+
+// --- serial pipeline stage with a large backlog WHILE THE PIPELINE'S TASK SET HOLDS AN EXCEPTION ------------
+// The depth limit of the serial stage's continuation chain (completion callback runs the next queued item)
+// must hold in every state of the pipeline, also after a stage has thrown: the limited path does not look
+// at hasException() before it runs a stage function, so as long as nobody discards the backlog the chain
+// keeps running items, and a chain that stops honouring canInlineSchedule() once the set is cancelled nests
+// once per queued item.  The fault-free scenarios above never reach that state.  What it takes (all of it
+// public API: slow stage functions, a stage that throws):
+//   * generator -> A (serial transform, the backlog: its first call holds the stage until the generator has
+//     handed out all n items) -> sink (the stage that throws);
+//   * the exception must be recorded while a thread X is in the MIDDLE of a run of inline continuations of A
+//     (after the throw a force-queued continuation is dropped by the cancelled task set, which ends the chain
+//     in every version): a sink call, on a pool worker Y, waits until a call of A that is nested 3..20 deep on
+//     another thread has parked, then throws; the parked call of A resumes once the exception has been recorded;
+//   * nobody may discard A's backlog meanwhile; the only thread that does is the caller of pipeline(), in
+//     LimitGatedScheduler::wait().  Three ways to keep it away:
+//       1 pool thread: the generator has ended, the caller is in the wait loops and helps itself to pool
+//         tasks (tryExecuteNext); the sink (serial) throws only on the worker, and once it has parked there
+//         the caller is the only thread left to run A: X = caller, the chain is nested in wait();
+//       2 pool threads: the same, but the sink admits two items at a time and the first sink call that runs on
+//         the caller is a slow one (returns when A has gone quiet after the fault): X = caller or the caller
+//         is busy inside a stage function while the two workers are X and Y;
+//       open generator (3 pool threads): the generator stays open (blocked like a source waiting for input)
+//         until A has gone quiet after the fault, so the caller is parked in the generator's completion wait;
+//         X and Y are the two remaining workers (seeded/C46-b/agent_demo.cpp).
+// Every wait is a handshake with a time-out (the run degrades to a fault-free or racy one, never hangs); a
+// round in which the fault could not be placed is repeated (a few times).  Reported: inj = the fault was
+// recorded mid-chain with at least n/3 items still queued behind A; need = bodies that must have run
+// (after the fault the rest of the backlog is legitimately discarded by wait()).
+static std::atomic<long> gNeed{-1}, gInj{0}, gLeft{0};
+
+template <typename P>
+static bool waitFor(P p, int ms) {
+  for (long i = 0; !p(); ++i) {
+    if (i >= ms * 10L)
+      return false;
+    if (i < 200)
+      sched_yield();
+    else
+      usleep(100);
+  }
+  return true;
+}
+
+struct PipeFault : std::runtime_error {
+  PipeFault() : std::runtime_error("sink failed") {}
+};
+
+static bool pipelineSerialFaultRound(long n, int threads, bool openGen) {
+  dispenso::ThreadPool pool((size_t)threads);
+  {
+    // all workers up and running before the pipeline starts (otherwise the caller does most of the work of
+    // the first round of a process alone)
+    std::atomic<int> up{0};
+    for (int i = 0; i < threads; ++i)
+      pool.schedule([&up, threads]() {
+        up.fetch_add(1);
+        waitFor([&]() { return up.load() >= threads; }, 2000);
+      }, dispenso::ForceQueuingTag());
+    waitFor([&]() { return up.load() >= threads; }, 2000);
+  }
+  const pthread_t caller = pthread_self();
+  const bool slowSinkOnCaller = !openGen && threads >= 2;
+  std::atomic<int> allQueued{0}, sinkWaiting{0}, aParked{0}, thrown{0}, resumed{0}, callerBusy{0};
+  std::atomic<long> ranA{0}, ranAtFault{0};
+  std::atomic<unsigned long> genThread{0}, sinkThread{0};
+  long next = 0;
+  bool caught = false;
+  // A has gone quiet after the fault (or has run everything, or the fault cannot be placed any more)
+  auto untilQuiet = [&]() {
+    if (waitFor([&]() { return resumed.load(std::memory_order_acquire) != 0 || ranA.load() >= n; }, 20000)) {
+      // no call of A for 40 ms (a preempted chain must not be taken for a finished one)
+      long last = -1;
+      int same = 0;
+      waitFor([&]() {
+        long cur = ranA.load(std::memory_order_acquire);
+        same = cur == last ? same + 1 : 0;
+        last = cur;
+        usleep(4000);
+        return same >= 10;
+      }, 20000);
+    }
+  };
+  try {
+    dispenso::pipeline(
+        pool,
+        [&]() -> dispenso::OpResult<long> {
+          genThread.store((unsigned long)pthread_self(), std::memory_order_relaxed);
+          if (next < n)
+            return next++;
+          allQueued.store(1, std::memory_order_release);
+          if (openGen)
+            untilQuiet(); // a source that is still open: end of input only after the fault
+          return {};
+        },
+        dispenso::stage(
+            [&](long v) -> long {
+              bodyEntry();
+              long k = ranA.fetch_add(1, std::memory_order_acq_rel) + 1;
+              bool onGen = genThread.load(std::memory_order_relaxed) == (unsigned long)pthread_self();
+              if (k == 1 && !onGen) {
+                // hold the stage until everything is queued behind it (not when the library runs this call
+                // inside the generator's own task: the generator could not go on)
+                waitFor([&]() { return allQueued.load(std::memory_order_acquire) != 0; }, 10000);
+              }
+              if (k <= n / 2 && !aParked.load(std::memory_order_acquire))
+                usleep(20); // A is the slow stage: do not work the backlog off before the fault has been placed
+              int d = tObs.depth;
+              if (sinkWaiting.load(std::memory_order_acquire) && d >= 3 && d <= 20 &&
+                  (openGen || pthread_equal(pthread_self(), caller) || callerBusy.load(std::memory_order_acquire)) &&
+                  sinkThread.load(std::memory_order_acquire) != (unsigned long)pthread_self() &&
+                  !aParked.exchange(1, std::memory_order_acq_rel)) {
+                ranAtFault.store(k, std::memory_order_relaxed);
+                if (waitFor([&]() { return thrown.load(std::memory_order_acquire) != 0; }, 10000)) {
+                  usleep(30000); // the catch handler of the sink's task records the exception in the task set
+                  resumed.store(1, std::memory_order_release);
+                }
+              }
+              return v + 1;
+            },
+            1),
+        dispenso::stage(
+            [&](long) {
+              bodyEntry();
+              if (thrown.load(std::memory_order_acquire) || aParked.load(std::memory_order_acquire) ||
+                  !allQueued.load(std::memory_order_acquire) || ranA.load() > n / 2) // (too late for a large backlog)
+                return;
+              if (!openGen && pthread_equal(pthread_self(), caller)) {
+                // never the thrower (it would go straight on to discard the backlog); with two workers: a slow call
+                if (slowSinkOnCaller && !callerBusy.exchange(1, std::memory_order_acq_rel))
+                  untilQuiet();
+                return;
+              }
+              if (sinkWaiting.exchange(1, std::memory_order_acq_rel))
+                return;
+              sinkThread.store((unsigned long)pthread_self(), std::memory_order_release);
+              bool parked = waitFor([&]() { return aParked.load(std::memory_order_acquire) != 0 || ranA.load() >= n; }, 10000) &&
+                  aParked.load(std::memory_order_acquire) != 0;
+              if (parked) {
+                thrown.store(1, std::memory_order_release);
+                throw PipeFault();
+              }
+            },
+            slowSinkOnCaller ? 2 : 1));
+  } catch (const PipeFault&) {
+    caught = true;
+  }
+  bool faulted = thrown.load() != 0;
+  if (caught != faulted)
+    _exit(9); // the exception of the stage must reach the caller of pipeline() (and only that)
+  if (!faulted) {
+    if (ranA.load() != n)
+      _exit(9);
+    gNeed.store(2 * n);
+    return false;
+  }
+  long left = n - ranAtFault.load();
+  gNeed.store(ranAtFault.load());
+  gLeft.store(left);
+  gInj.store(resumed.load() && left >= n / 3 ? 1 : 0);
+  return gInj.load() != 0;
+}
+
+static void pipelineSerialFault(long n, int threads, bool openGen) {
+  for (int round = 0; round < 4; ++round)
+    if (pipelineSerialFaultRound(n, threads, openGen))
+      return;
 }
 
 // n-node chain graph (and a comb: every spine node also releases a leaf) on the ConcurrentTaskSet executor
@@ -366,6 +538,9 @@ static std::map<std::string, Scenario> scenarios() {
   m["pipeline_serial_p2"] = [](long n) { pipelineSerial(n, 2); };
   m["pipeline_serial_p1"] = [](long n) { pipelineSerial(n, 1); };
   m["pipeline_serial_p0"] = [](long n) { pipelineSerial(n, 0); };
+  m["pipeline_serial_fault_p1"] = [](long n) { pipelineSerialFault(n, 1, false); };
+  m["pipeline_serial_fault_p2"] = [](long n) { pipelineSerialFault(n, 2, false); };
+  m["pipeline_serial_fault_open_p3"] = [](long n) { pipelineSerialFault(n, 3, true); };
   m["graph_chain_p2"] = [](long n) { graphChain(n, false, 2); };
   m["graph_comb_p1"] = [](long n) { graphChain(n, true, 1); };
   m["graph_comb_p0"] = [](long n) { graphChain(n, true, 0); };
@@ -401,6 +576,9 @@ static Outcome runChild(const Scenario& sc, long n, int timeoutSec) {
     r.nest = gMaxNest.load();
     r.guard = gMaxGuard.load();
     r.sb = gMaxStack.load();
+    r.need = gNeed.load() < 0 ? n : gNeed.load();
+    r.inj = gInj.load();
+    r.left = gLeft.load();
     if (write(fds[1], &r, sizeof r) != (ssize_t)sizeof r)
       _exit(5);
     _exit(0);
@@ -468,9 +646,11 @@ int main(int argc, char** argv) {
         out,
         "{\"e\":\"Obs\",\"sc\":\"%s\",\"n1\":%ld,\"n2\":%ld,\"done1\":%d,\"done2\":%d,\"crash1\":%d,\"crash2\":%d,"
         "\"sig1\":%d,\"sig2\":%d,\"timeout1\":%d,\"timeout2\":%d,\"ran1\":%ld,\"ran2\":%ld,\"nest1\":%ld,\"nest2\":%ld,"
-        "\"guard1\":%ld,\"guard2\":%ld,\"sb1\":%ld,\"sb2\":%ld}\n",
+        "\"guard1\":%ld,\"guard2\":%ld,\"sb1\":%ld,\"sb2\":%ld,\"need1\":%ld,\"need2\":%ld,\"inj1\":%ld,\"inj2\":%ld,"
+        "\"left1\":%ld,\"left2\":%ld}\n",
         name.c_str(), n, 4 * n, o1.r.done, o2.r.done, o1.crash, o2.crash, o1.sig, o2.sig, o1.timeout, o2.timeout,
-        o1.r.ran, o2.r.ran, o1.r.nest, o2.r.nest, o1.r.guard, o2.r.guard, o1.r.sb, o2.r.sb);
+        o1.r.ran, o2.r.ran, o1.r.nest, o2.r.nest, o1.r.guard, o2.r.guard, o1.r.sb, o2.r.sb, o1.r.need, o2.r.need, o1.r.inj,
+        o2.r.inj, o1.r.left, o2.r.left);
     fflush(out);
     ++records;
     crashes += o1.crash + o2.crash;
